@@ -164,7 +164,7 @@ Section UAFProofs.
     (* the trackers of [admissible] / [quiet] after one event *)
     Definition dirty_after (linked : bool) (dirty : list nat) (e : ev (A:=A)) : list nat :=
       match e with
-      | Write i _ => if linked then i :: dirty else dirty
+      | Write i _ => if linked && is_input inputs i then i :: dirty else dirty
       | Notify j => filter (fun i => negb (Nat.eqb i j)) dirty
       | Recompute => dirty
       | Unlink | Relink => []
@@ -175,19 +175,19 @@ Section UAFProofs.
       match e with Unlink => false | Relink => true | _ => linked end.
 
     Lemma admissible_cons linked dirty e (h : list (ev (A:=A))) :
-      admissible linked dirty (e :: h) ->
-      admissible (linked_after linked e) (dirty_after linked dirty e) h.
+      admissible inputs linked dirty (e :: h) ->
+      admissible inputs (linked_after linked e) (dirty_after linked dirty e) h.
     Proof. destruct e; simpl; tauto. Qed.
 
     Lemma quiet_cons linked dirty computed e (h : list (ev (A:=A))) :
-      quiet linked dirty computed (e :: h) ->
-      quiet (linked_after linked e) (dirty_after linked dirty e) (computed_after linked computed e) h.
+      quiet inputs linked dirty computed (e :: h) ->
+      quiet inputs (linked_after linked e) (dirty_after linked dirty e) (computed_after linked computed e) h.
     Proof. destruct e; simpl; tauto. Qed.
 
     Lemma step_inv dirty computed w e h :
       Inv dirty computed w ->
-      admissible (w_linked w) dirty (e :: h) ->
-      (reset = false -> quiet (w_linked w) dirty computed (e :: h)) ->
+      admissible inputs (w_linked w) dirty (e :: h) ->
+      (reset = false -> quiet inputs (w_linked w) dirty computed (e :: h)) ->
       exists w', step' w e = Ok w' /\
         w_linked w' = linked_after (w_linked w) e /\
         Inv (dirty_after (w_linked w) dirty e) (computed_after (w_linked w) computed e) w' /\
@@ -202,16 +202,24 @@ Section UAFProofs.
         + intros ->. auto.
         + intros Hf. destruct (Hfold Hf) as (base & Hv & Hch & Hag).
           exists base. split; [exact Hv|]. split; [exact Hch|].
-          destruct linked.
-          * intros slot id Hs Hnin. rewrite (Hag slot id Hs).
-            -- unfold write. destruct (Nat.eqb_spec id i) as [->|]; [|reflexivity].
-               exfalso. apply Hnin. left.
-            -- intros H. apply Hnin. right. exact H.
-          * (* a write behind the back of a computed fold is excluded *)
-            exfalso. destruct reset eqn:Hr.
-            -- rewrite Hres in Hf by auto. discriminate.
-            -- destruct (Hq eq_refl) as [Hc _]. rewrite Hcomp, Hf in Hc by reflexivity.
-               specialize (Hc eq_refl). discriminate.
+          destruct (is_input inputs i) eqn:Hin.
+          * destruct linked; simpl.
+            -- intros slot id Hs Hnin. rewrite (Hag slot id Hs).
+               ++ unfold write. destruct (Nat.eqb_spec id i) as [->|]; [|reflexivity].
+                  exfalso. apply Hnin. left.
+               ++ intros H. apply Hnin. right. exact H.
+            -- (* a write to an input behind the back of a computed fold is excluded *)
+               exfalso. destruct reset eqn:Hr.
+               ++ rewrite Hres in Hf by auto. discriminate.
+               ++ destruct (Hq eq_refl) as [Hc _]. rewrite Hcomp, Hf in Hc by reflexivity.
+                  specialize (Hc eq_refl eq_refl). discriminate.
+          * (* not an input: no slot reads it *)
+            rewrite andb_false_r. intros slot id Hs Hnin. rewrite (Hag slot id Hs Hnin).
+            unfold write. destruct (Nat.eqb_spec id i) as [->|]; [|reflexivity].
+            exfalso. unfold is_input in Hin.
+            assert (existsb (Nat.eqb i) inputs = true); [|congruence].
+            apply existsb_exists. exists i. split; [|apply Nat.eqb_refl].
+            apply elem_of_list_In. eapply elem_of_list_lookup_2; eauto.
       - (* Notify *)
         destruct Hadm as [-> Hadm].
         unfold childChanged. destruct (folded f) eqn:Hf; simpl.
@@ -277,8 +285,8 @@ Section UAFProofs.
 
     Lemma run_inv h : forall dirty computed w,
       Inv dirty computed w ->
-      admissible (w_linked w) dirty (h ++ [Recompute]) ->
-      (reset = false -> quiet (w_linked w) dirty computed (h ++ [Recompute])) ->
+      admissible inputs (w_linked w) dirty (h ++ [Recompute]) ->
+      (reset = false -> quiet inputs (w_linked w) dirty computed (h ++ [Recompute])) ->
       exists w', run' w (h ++ [Recompute]) = Ok w' /\
                  value (w_f w') = full initial fold inputs (w_store w').
     Proof.
@@ -297,8 +305,8 @@ Section UAFProofs.
       recompute of every history the engine's discipline admits in which, once the fold has
       been computed, nothing changes behind its back. *)
   Theorem uaf_as_is st0 (h : list (ev (A:=A))) :
-    admissible false [] (h ++ [Recompute]) ->
-    quiet false [] false (h ++ [Recompute]) ->
+    admissible inputs false [] (h ++ [Recompute]) ->
+    quiet inputs false [] false (h ++ [Recompute]) ->
     exists w, run initial fold update false inputs (init zeroA initial inputs st0) (h ++ [Recompute]) = Ok w /\
               value (w_f w) = full initial fold inputs (w_store w).
   Proof.
@@ -307,13 +315,39 @@ Section UAFProofs.
 
   (** With the repair, the extra hypothesis is not needed. *)
   Theorem uaf_fixed st0 (h : list (ev (A:=A))) :
-    admissible false [] (h ++ [Recompute]) ->
+    admissible inputs false [] (h ++ [Recompute]) ->
     exists w, run initial fold update true inputs (init zeroA initial inputs st0) (h ++ [Recompute]) = Ok w /\
               value (w_f w) = full initial fold inputs (w_store w).
   Proof.
     intros Hadm. eapply (run_inv true h [] false); eauto; [apply inv_init|discriminate].
   Qed.
 End UAFProofs.
+
+(** ** the executable versions of the discipline are sound *)
+Lemma admissibleb_sound {A} (inputs : list nat) (h : list (ev (A:=A))) : forall linked dirty,
+  admissibleb inputs linked dirty h = true -> admissible inputs linked dirty h.
+Proof.
+  induction h as [|e h IH]; intros linked dirty; simpl; [auto|].
+  destruct e; simpl; rewrite ?andb_true_iff.
+  - apply IH.
+  - intros [-> H]. split; [reflexivity|apply IH, H].
+  - intros [[-> Hd] H]. split; [reflexivity|]. split; [destruct dirty; [reflexivity|discriminate]|apply IH, H].
+  - intros [-> H]. split; [reflexivity|apply IH, H].
+  - intros [Hl H]. split; [destruct linked; [discriminate|reflexivity]|apply IH, H].
+Qed.
+
+Lemma quietb_sound {A} (inputs : list nat) (h : list (ev (A:=A))) : forall linked dirty computed,
+  quietb inputs linked dirty computed h = true -> quiet inputs linked dirty computed h.
+Proof.
+  induction h as [|e h IH]; intros linked dirty computed; simpl; [auto|].
+  destruct e; simpl; rewrite ?andb_true_iff.
+  - intros [Hc H]. split; [|apply IH, H]. intros -> Hin. rewrite Hin in Hc. simpl in Hc.
+    destruct computed; [discriminate|reflexivity].
+  - apply IH.
+  - apply IH.
+  - intros [Hc H]. split; [|apply IH, H]. intros ->. simpl in Hc. destruct dirty; [reflexivity|discriminate].
+  - apply IH.
+Qed.
 
 (** ** The sum instance satisfies the contract, and refutes the full statement *)
 Lemma fold_left_add_acc (l : list Z) (a : Z) : (fold_left Z.add l a = a + fold_left Z.add l 0)%Z.
@@ -338,7 +372,7 @@ Definition refuting_history : list (ev (A:=Z)) :=
 Theorem uaf_refuted :
   exists (st0 : store (A:=Z)) (h : list (ev (A:=Z))),
     update_contract (A:=Z) (B:=Z) 0%Z 0%Z Z.add (fun acc o n => (acc - o + n)%Z) /\
-    admissible false [] (h ++ [Recompute]) /\
+    admissible [0; 1] false [] (h ++ [Recompute]) /\
     exists w, run 0%Z Z.add (fun acc o n => (acc - o + n)%Z) false [0; 1] (init 0%Z 0%Z [0; 1] st0) (h ++ [Recompute]) = Ok w /\
               value (w_f w) = 3%Z /\ full 0%Z Z.add [0; 1] (w_store w) = 12%Z.
 Proof.
@@ -354,7 +388,7 @@ Example uaf_as_is_nonvacuous :
   let h : list (ev (A:=Z)) :=
     [Write 1 5%Z; Relink; Recompute; Write 0 7%Z; Write 1 8%Z; Notify 0; Notify 1; Notify 1; Recompute;
      Unlink; Relink] in
-  admissible false [] (h ++ [Recompute]) /\ quiet false [] false (h ++ [Recompute]).
+  admissible [0; 1; 0] false [] (h ++ [Recompute]) /\ quiet [0; 1; 0] false [] false (h ++ [Recompute]).
 Proof. simpl. repeat split; auto; discriminate. Qed.
 
 (** * ReduceBalanced *)
